@@ -93,6 +93,11 @@ func consUnits(thorough bool) []*unit {
 						c.Kind, c.Field, c.Class, c.Desc, c.Ch, c.raw = "valid", "-", "valid", "unmodified", ch, s.Bytes
 						emit(&c)
 					}
+					{
+						c := base
+						c.Kind, c.Field, c.Class, c.Desc, c.Ch, c.raw, c.Drive = "valid", "-", "valid+driven-on", "unmodified; then the node is driven on (rounds)", s.Home, s.Bytes, "rounds"
+						emit(&c)
+					}
 					if pm == peerFresh {
 						c := base
 						c.Peer = peerGone
@@ -229,6 +234,13 @@ func consUnits(thorough bool) []*unit {
 				genClaimed(w, st, pm, emit)
 			}})
 		}
+	}
+	// stored consensus messages followed by the drive-on (the node must survive what it kept)
+	for _, st := range allNodeStates {
+		st := st
+		add(&unit{State: st, Peer: peerFresh, Kind: "drive-on", Msg: "stored-messages", Est: 6000, gen: func(w *worker, u *unit, emit func(*caseT)) {
+			genDriveOn(w, st, emit)
+		}})
 	}
 	// every 1- and 2-byte string (and the empty one) on every channel id
 	for _, st := range allNodeStates {
